@@ -485,3 +485,64 @@ def p_c06(ctx):
     cov["snippet_cases"] = {"constraint_trees": n1, "bodies": n2, "model_drift_events": drift}
     cov["rule"] += "; plus one case per (constraint tree, prefill) and per (label count, body schema) of MC_Snippet, and the population sweep (0..250 candidates from six sources, with and without prefix, hooks)"
     finish(ctx, viols, cov, assumptions=["model drift (transcription M of a producer differs from the code while StopsOK holds) is reported in the evidence, never as a violation"])
+
+
+def parse_race_logs(prefix):
+    """Go race detector reports (GORACE=log_path=prefix) -> list of {site, kind}."""
+    out = []
+    for f in sorted(glob.glob(prefix + ".*")):
+        txt = open(f, errors="replace").read()
+        for blk in txt.split("WARNING: DATA RACE")[1:]:
+            frames = re.findall(r"^\s+(github\.com/hashicorp/hcl-lang/[^\s(]+)", blk, re.M)
+            site = " <-> ".join(dict.fromkeys(x.replace("github.com/hashicorp/hcl-lang/", "") for x in frames[:2])) or "outside hcl-lang"
+            out.append({"ev": "Race", "kind": "data race", "site": site})
+    return out
+
+
+@pipeline("C05")
+def p_c05(ctx):
+    # (1) the model: all interleavings of the worker model; the named deviation must be rejected
+    ctx.tlc("Concurrent.tla", "MC_Conc.cfg", "mcconc", workers=8, timeout=900)
+    sens(ctx, "Concurrent.tla", "MC_Conc_sens.cfg", "mcconcsens")
+    # (2) the implementation under the race detector: unsynchronised goroutines on one shared context
+    hxr = ctx.build(race=True)
+    rlog = os.path.join(ctx.work, "racelog")
+    pre = os.path.join(ctx.work, "rc")
+    p = ctx.run_hx(["race", "-out", pre, "-seed", str(ctx.seed), "-goroutines", "16" if ctx.quick else "48", "-rounds", "2" if ctx.quick else "6",
+                    "-stride", "11" if ctx.quick else "3"], binary=hxr, env={"GORACE": "log_path=%s halt_on_error=0" % rlog}, timeout=7200)
+    n1 = json.loads(p.stdout.strip().splitlines()[-1])["events"]
+    # (3) TLC-generated schedules forced with the scheduler gates
+    scases, ns = tlc_cases(ctx, "Sched.tla", "Sched_quick.cfg" if ctx.quick else "Sched_full.cfg", "sched", workers=2)
+    pre2 = os.path.join(ctx.work, "sc")
+    p = ctx.run_hx(["sched", "-cases", scases, "-out", pre2, "-seed", str(ctx.seed), "-world", "tf", "-pairs", "3" if ctx.quick else "6"], binary=hxr,
+                   env={"GORACE": "log_path=%s halt_on_error=0" % rlog}, timeout=7200)
+    info2 = json.loads(p.stdout.strip().splitlines()[-1])
+    races = parse_race_logs(rlog)
+    rf = os.path.join(ctx.work, "races.000.ndjson")
+    with open(rf, "w") as f:
+        f.write(json.dumps({"ev": "Init", "p": "p1", "world": "-", "files": []}) + "\n")
+        seen = set()
+        for r in races:
+            if r["site"] not in seen:
+                seen.add(r["site"])
+                f.write(json.dumps(r) + "\n")
+    files = sorted(glob.glob(pre + ".*.ndjson") + glob.glob(pre2 + ".*.ndjson")) + [rf]
+    bad, events = ctx.validate_traces("TraceSession.tla", "TraceSession.cfg", files)
+    viols = []
+    for b in bad:
+        if b["prop"] != "C05":
+            continue
+        e = json.loads(open(b["file"]).read().splitlines()[b["l"] - 1])
+        if e["ev"] == "Det":
+            kind = e["key"].split("|")[0]
+            viols.append({"what": "concurrent result of %s differs from the sequential result" % kind, "replay": {"pipeline": "race", "key": e["key"], "regime": e.get("regime")}})
+        else:
+            viols.append({"what": b["what"], "replay": {"pipeline": "race", "event": e}})
+    finish(ctx, viols, {
+        "evaluations": n1 + info2["events"], "distinct_nontrivial": ns + 3,
+        "rule": "case = one TLC-generated schedule (interleaving of the first K gate steps of two queries, K=%s, all of them) forced with blocking gates, or one world in which 16-48 "
+                "unsynchronised goroutines issue the mixed workload on one shared PathContext under the Go race detector; every result digest goes through the memo rule against the sequential run" % ("4" if ctx.quick else "6"),
+        "traces_validated_against_impl": len(files), "trace_events": events, "race_reports": len(races), "gate_parks": info2["parks"],
+        "samples": [json.loads(x) for x in open(files[0]).read().splitlines()[1:3]], "exhaustive": False},
+        assumptions=["the 'no data race' half is observed by the Go race detector (happens-before), the only instrument that sees the implementation's memory accesses; a race on a path no generated query reaches is not seen",
+                     "gates exist in MergeBlockBodySchemas only"])
